@@ -61,7 +61,7 @@ def check(prog, chk, rule, names):
                    "state of the previous use leaks into the new one" % (v, fld), loc=fn.loc(fn.elem_line(b, i)), fn=fn)
 
 
-def _avoiding_path(fn, start, sinks, stores):
+def _avoiding_path(fn, start, sinks, stores, skip_edge=None):
     """Is some sink element reachable from the start element without executing a store element?  -> witness block list or None."""
     sb, si = start
     sinkmap = {}
@@ -83,6 +83,8 @@ def _avoiding_path(fn, start, sinks, stores):
     prev = {}
     work = []
     for e in fn.succ[sb]:
+        if skip_edge is not None and skip_edge(e):
+            continue
         if e.dst not in prev:
             prev[e.dst] = sb
             work.append(e.dst)
@@ -97,6 +99,8 @@ def _avoiding_path(fn, start, sinks, stores):
         if r == "killed":
             continue
         for e in fn.succ[b]:
+            if skip_edge is not None and skip_edge(e):
+                continue
             if e.dst not in prev and e.dst != sb:
                 prev[e.dst] = b
                 work.append(e.dst)
